@@ -4197,8 +4197,21 @@ coap_dispatch(coap_context_t *context, coap_session_t *session,
     goto cleanup;
 
   case COAP_MESSAGE_NON:
-    /* find transaction in sendqueue in case large response */
-    coap_remove_from_queue(&context->sendqueue, session, pdu->mid, &sent);
+    /*
+     * find transaction in sendqueue in case large response - message ids are
+     * per sender, so an equal id alone does not make this the answer to what
+     * is waiting there: it has to be a response carrying that token
+     */
+    if (COAP_PDU_IS_RESPONSE(pdu)) {
+      coap_queue_t *q;
+
+      LL_FOREACH(context->sendqueue, q) {
+        if (q->session == session && q->id == pdu->mid)
+          break;
+      }
+      if (q && coap_binary_equal(&q->pdu->actual_token, &pdu->actual_token))
+        coap_remove_from_queue(&context->sendqueue, session, pdu->mid, &sent);
+    }
     if (sent && sent->pdu->type == COAP_MESSAGE_CON && session->con_active) {
       /* a Confirmable taken off the send queue frees its NSTART slot */
       session->con_active--;
